@@ -213,6 +213,31 @@ class _SwapIfElse(ast.NodeTransformer):
         return node
 
 
+class _SplitAnd(ast.NodeTransformer):
+    """if a and b: body        ->   if a:\n    if b: body       (no else branch)"""
+
+    def visit_If(self, node):
+        self.generic_visit(node)
+        if not node.orelse and isinstance(node.test, ast.BoolOp) and \
+                isinstance(node.test.op, ast.And) and len(node.test.values) == 2:
+            inner = ast.If(test=node.test.values[1], body=node.body, orelse=[])
+            return ast.If(test=node.test.values[0], body=[inner], orelse=[])
+        return node
+
+
+class _MergeIfs(ast.NodeTransformer):
+    """if a:\n    if b: body   ->   if a and b: body          (no else branches)"""
+
+    def visit_If(self, node):
+        self.generic_visit(node)
+        if not node.orelse and len(node.body) == 1 and isinstance(node.body[0], ast.If) and \
+                not node.body[0].orelse:
+            inner = node.body[0]
+            return ast.If(test=ast.BoolOp(op=ast.And(), values=[node.test, inner.test]),
+                          body=inner.body, orelse=[])
+        return node
+
+
 def _alpha_rename(tree):
     """Rename every local (non-parameter) variable of every function to <name>_q."""
     for fn in [n for n in ast.walk(tree) if isinstance(n, (ast.FunctionDef, ast.AsyncFunctionDef))]:
@@ -272,6 +297,10 @@ def neutral_variants(text):
         out.append(('hoist-first-argument', ast.unparse(t) + '\n'))
         t = ast.fix_missing_locations(_Commute().visit(ast.parse(text)))
         out.append(('commute-arithmetic', ast.unparse(t) + '\n'))
+        t = ast.fix_missing_locations(_SplitAnd().visit(ast.parse(text)))
+        out.append(('split-and-conditions', ast.unparse(t) + '\n'))
+        t = ast.fix_missing_locations(_MergeIfs().visit(ast.parse(text)))
+        out.append(('merge-nested-ifs', ast.unparse(t) + '\n'))
     except Exception as e:   # pragma: no cover
         out.append(('rewrite-error', None))
     return out
